@@ -632,6 +632,29 @@ def run(ctx, repo, tier):
                   witness=f"derived {val.pretty()}", derived=val.pretty())
     else:
         ctx.inconclusive("KERNEL", "C16.between.single", "single-radius result not derived", gb.where, witness=contains_top(res) or vstr(res)[:200])
+    # single radius with the origin prepended (the form the position Voronoi model asks for): [0, 2r]
+    interp0 = Interp(repo, Hooks())
+    res0 = interp0.call_function(gb, [T.vec(interp0, "r", Poly.const(1))], {"include_zero": Const(True)})
+    ctx.instance("LEN")
+    g0 = res0 if isinstance(res0, Grid) else T.to_grid(interp0, res0)
+    if isinstance(g0, Grid) and g0.ndim == 1 and not contains_top(g0) and g0.dim_len(0).is_const():
+        n0 = g0.dim_len(0)
+        vals0 = []
+        d0 = interp0.iter_desc(T.simplify_pw(interp0, g0))
+        if d0 is not None and n0.as_const() <= 4:
+            for k_ in range(int(n0.as_const())):
+                e_ = d0[1](Poly.const(k_))
+                e_ = T._resolve_pw_scalar(interp0, e_) if not isinstance(e_, Num) else e_
+                vals0.append(e_.p if isinstance(e_, Num) else None)
+        if None in vals0 or not vals0:
+            ctx.inconclusive("KERNEL", "C16.between.single.zero", "single-radius result with include_zero not derived", gb.where, witness=vstr(res0)[:200])
+        else:
+            ok0 = len(vals0) == 2 and vals0[0].is_zero() and vals0[1] == 2 * r_at(Poly.const(0))
+            ctx.check(ok0, "KERNEL", "C16.between.single.zero", "single radius r with include_zero gives the boundaries [0, 2r]", gb.where,
+                      "between_radii = np.concatenate([[0,], between_radii])", witness=f"derived {[v_.pretty() for v_ in vals0]}")
+    else:
+        ctx.inconclusive("KERNEL", "C16.between.single.zero", "single-radius result with include_zero not derived", gb.where,
+                         witness=contains_top(res0) or vstr(res0)[:200])
     # out-of-range constant subscripts recorded by the interpreter on exactly-known lengths (LEN)
     for node, w, ln, ix, guards, what in interp.index_obligations:
         if ln is not None and ln.is_const() and ix.is_const():
